@@ -334,6 +334,10 @@ class _ResourceOperations:
     def write_file(self, resource, contents: Union[str, FileContent]):
         data: FileContent
         if not isinstance(contents, bytes):
+            if resource.newlines is None and resource.exists():
+                # the file has not been read through this object yet (e.g. a
+                # change reloaded from history): detect its newline convention
+                resource.read()
             data = rope.base.fscommands.unicode_to_file_data(
                 contents,
                 newlines=resource.newlines,
